@@ -150,7 +150,7 @@ def bases_ok(c, p):
 
 
 class _PfxBin(Contract):
-    props = ("C02", "C11")
+    props = ("C02", "C06", "C11")  # C06: a*b, a/b, a**n are unit independent only if the prefix algebra is exact
     inv = ("I_P",)
     modifies = ("new:Prefix", "Prefix._known")
     ret = T_PFX
@@ -196,7 +196,7 @@ class PfxTruediv(_PfxBin):
 @contract
 class PfxPow(Contract):
     qual = "measured.Prefix.__pow__"
-    props = ("C02", "C11")
+    props = ("C02", "C06", "C11")
     inv = ("I_P",)
     modifies = ("new:Prefix", "Prefix._known")
     ret = T_PFX
@@ -214,7 +214,7 @@ class PfxPow(Contract):
 @contract
 class PfxRoot(Contract):
     qual = "measured.Prefix.root"
-    props = ("C02", "C11")
+    props = ("C02", "C06", "C11")
     inv = ("I_P",)
     modifies = ("new:Prefix", "Prefix._known")
     ret = T_PFX
@@ -242,7 +242,7 @@ class PfxRoot(Contract):
 class PfxMul(Contract):
     """Prefix.__mul__ / __rmul__: prefix*prefix, prefix*unit, prefix*number."""
     qual = "measured.Prefix.__mul__"
-    props = ("C01", "C02", "C11")
+    props = ("C01", "C02", "C06", "C11")
     inv = ("I_D", "I_P", "I_U")
     modifies = ("new:Prefix", "Prefix._known", "new:Unit", "Unit._known")
     types = {"other": [T_PFX, T_UNIT, ("other",)]}
@@ -302,7 +302,7 @@ def pval(c, p):
 @contract
 class PfxQuantify(Contract):
     qual = "measured.Prefix.quantify"
-    props = ("C11",)
+    props = ("C04", "C05", "C06", "C10", "C11", "C12")
     ret = ("num",)
 
     def requires(self, c, a):
